@@ -100,6 +100,9 @@ func init() {
 		"(*sync/atomic.Bool).Swap":  hAtomicBool("Swap"),
 		"errors.As":                hErrorsAs,
 		"(*sync.WaitGroup).Done":   hGhostCount("wgDone"),
+		"(*sync.WaitGroup).Wait":   hWgWait,
+		"(*crypto/tls.Conn).Handshake":        hGhostCountErr("tlsHandshakes"),
+		"(*crypto/tls.Conn).HandshakeContext": hGhostCountErr("tlsHandshakes"),
 		"(*sync.WaitGroup).Add":    hGhostCount("wgAdd"),
 		"(*sync.Mutex).Lock":       hMutex(1),
 		"(*sync.Mutex).Unlock":     hMutex(-1),
@@ -401,6 +404,34 @@ func hGhostCount(name string) stdHandler {
 		}
 		k(st, Val{T: types.NewTuple()}, false)
 	}
+}
+
+// hGhostCountErr: like hGhostCount for a call that returns an (unconstrained) error.
+func hGhostCountErr(name string) stdHandler {
+	return func(x *Exec, fr *Frame, st *State, site ssa.Instruction, callee *ssa.Function, args []Val, k Kont) {
+		x.assumeNote("assumed contract " + callee.String() + ": may block, any error; counted in ghost " + name)
+		if g, ok := st.ghost[name]; ok {
+			st.ghost[name] = Val{T: g.T, C: []*Term{BVBin("bvadd", g.C[0], BVConst(1, g.C[0].Sort.Width))}}
+		}
+		res := freshVal(resultType(callee.Signature), "err")
+		x.assumeWF(st, res)
+		k(st, res, false)
+	}
+}
+
+// (*sync.WaitGroup).Wait: counted in ghost wgWaits; the number of context cancellations performed before the
+// wait is remembered in ghost cancelsAtWait (so that "wait first, cancel afterwards" can be stated).
+func hWgWait(x *Exec, fr *Frame, st *State, site ssa.Instruction, callee *ssa.Function, args []Val, k Kont) {
+	x.assumeNote("assumed contract (*sync.WaitGroup).Wait: returns (termination is not decided); counted in ghost wgWaits")
+	if g, ok := st.ghost["wgWaits"]; ok {
+		st.ghost["wgWaits"] = Val{T: g.T, C: []*Term{BVBin("bvadd", g.C[0], BVConst(1, g.C[0].Sort.Width))}}
+	}
+	if c, ok := st.ghost["cancelCalls"]; ok {
+		if _, ok2 := st.ghost["cancelsAtWait"]; ok2 {
+			st.ghost["cancelsAtWait"] = c
+		}
+	}
+	k(st, Val{T: types.NewTuple()}, false)
 }
 
 // hNonNilResult: an external interface method returning a non-nil interface value, no side effect.
